@@ -569,7 +569,7 @@ func init() {
 			{Name: "existence-cache", Weight: 3, Fn: c17ExistenceCache},
 		},
 		Components: map[string][]string{
-			"real": {"pkg/blobstore/readcaching", "pkg/blobstore/readfallback", "pkg/blobstore/replication: deduplicating, queued, concurrency-limiting, local, noop", "pkg/blobstore existence caching blob access", "pkg/digest.ExistenceCache", "pkg/eviction (LRU, FIFO, RR sets)", "golang.org/x/sync/semaphore (rewritten onto verifsimrt)"},
+			"real": {"pkg/blobstore/configuration new_blob_access.go / new_blob_replicator.go / creators (W-config runs: the composite is assembled by the unmodified NewBlobAccessFromConfiguration over model leaves)", "pkg/blobstore/readcaching", "pkg/blobstore/readfallback", "pkg/blobstore/replication: deduplicating, queued, concurrency-limiting, local, noop", "pkg/blobstore existence caching blob access", "pkg/digest.ExistenceCache", "pkg/eviction (LRU, FIFO, RR sets)", "golang.org/x/sync/semaphore (rewritten onto verifsimrt)"},
 			"stub": {"backends (model stores with call log and injected failures)", "clock (simulated)", "context cancellation at drawn points", "scheduling (verifsimrt)"},
 		},
 		Rule:           "read-caching/fallback: drawn placement x replicator strategy x 1-4 concurrent clients x injected backend failures, monotonic oracles (success => right bytes and a backend holds it, NOT_FOUND => neither held it, uploads only reach slow/primary, read-through copies to fast/primary, fallback FindMissing = missing from both); replicator decorators: 2-6 concurrent callers with overlapping digest sets, failures and cancellations, a recording base replicator checks per-key exclusivity (deduplicating) and the in-flight bound (limiting, queued) and success => the sink holds every requested object; existence cache: backend that loses objects, simulated clock advances, a digest is hidden as present only if the backend reported it present within the duration; non-trivial = concurrency, a fault or a clock advance",
